@@ -17,7 +17,7 @@ theorem persist_ok (cfg : Cfg) (m : Mem) (fs : FS Name) (n : String) : OpOK cfg 
   · exact opOK_neutral (by simp) (fun _ h => h)
   · have hall : ∀ c ∈ (lockCache cfg m fs n).calls ++ cawPlan (lockCache cfg m fs n).fs (cacheDir n) Name.persist persistTrue, Neutral c :=
       neutral_append hn (cawPlan_neutral_persist _ _ _)
-    refine ⟨fun g => neutral_prefix g _ hall, ?_, keeps_of_neutral _ hall fs⟩
+    refine ⟨fun g => neutral_prefix g _ hall, ?_⟩
     intro hs n' h
     have hl := (lockCache_sync cfg m fs n hs).1
     simp only [applyAll_append]
@@ -32,11 +32,10 @@ theorem writeMeta_ok {cfg : Cfg} (hp : Params cfg) (m : Mem) (fs : FS Name) (n :
   split
   · exact opOK_neutral (by simp) (fun _ h => h)
   · split
-    · refine ⟨fun g => neutral_prefix g _ hn, ?_, keeps_of_neutral _ hn fs⟩
+    · refine ⟨fun g => neutral_prefix g _ hn, ?_⟩
       intro hs; rw [← hfs]; exact (lockCache_sync cfg m fs n hs).1
     · rename_i c hc
-      have hkl := keeps_of_neutral _ hn fs
-      refine ⟨?_, ?_, ?_⟩
+      refine ⟨?_, ?_⟩
       · intro g
         have gl : GoodFS cfg (lockCache cfg m fs n).fs := by rw [hfs]; exact neutral_all g _ hn
         have hdc : cfg.digest c = n := gl.dataOK n c hc
@@ -51,10 +50,6 @@ theorem writeMeta_ok {cfg : Cfg} (hp : Params cfg) (m : Mem) (fs : FS Name) (n :
         simp only [applyAll_append]
         rw [← hfs]
         exact cawMeta_keeps _ n _ n' ((lockCache_sync cfg m fs n hs).1 n' h)
-      · simp only [applyAll_append]
-        rw [← hfs]
-        intro n' h
-        exact cawMeta_keeps _ n _ n' (by rw [hfs]; exact hkl n' h)
 
 theorem genmeta_ok {cfg : Cfg} (hp : Params cfg) (m : Mem) (fs : FS Name) (n : String) : OpOK cfg m fs (genmeta cfg m fs n) :=
   writeMeta_ok hp m fs n none (fun _ h => by cases h)
@@ -63,12 +58,11 @@ theorem genmeta_ok {cfg : Cfg} (hp : Params cfg) (m : Mem) (fs : FS Name) (n : S
 theorem opOK_seq {cfg : Cfg} {m : Mem} {fs : FS Name} {a : Out} {b : Out} {r : Res}
     (ha : OpOK cfg m fs a) (hb : OpOK cfg a.mem (applyAll fs a.calls) b) :
     OpOK cfg m fs ⟨b.mem, a.calls ++ b.calls, r⟩ := by
-  refine ⟨fun g => prefix_append _ _ _ _ (ha.pre g) (hb.pre (all_of_prefix _ _ _ (ha.pre g))), ?_, ?_⟩
-  · intro hs; simp only [applyAll_append]; exact hb.sync (ha.sync hs)
-  · simp only [applyAll_append]; exact ha.keeps.trans hb.keeps
+  refine ⟨fun g => prefix_append _ _ _ _ (ha.pre g) (hb.pre (all_of_prefix _ _ _ (ha.pre g))), ?_⟩
+  intro hs; simp only [applyAll_append]; exact hb.sync (ha.sync hs)
 
 theorem opOK_res {cfg : Cfg} {m : Mem} {fs : FS Name} {a : Out} (r : Res) (ha : OpOK cfg m fs a) :
-    OpOK cfg m fs ⟨a.mem, a.calls, r⟩ := ⟨ha.pre, ha.sync, ha.keeps⟩
+    OpOK cfg m fs ⟨a.mem, a.calls, r⟩ := ⟨ha.pre, ha.sync⟩
 
 theorem refresh_ok {cfg : Cfg} (hp : Params cfg) (o : Order Name) (m : Mem) (fs : FS Name) (n : String) (b : Bytes) :
     OpOK cfg m fs (refresh cfg o m fs n b) := by
@@ -80,7 +74,7 @@ theorem refresh_ok {cfg : Cfg} (hp : Params cfg) (o : Order Name) (m : Mem) (fs 
   · exact opOK_res _ h1
   · have h2 := uwrite_ok cfg r1.mem (applyAll fs r1.calls) (tmpName n) 0 b
     generalize uwrite cfg r1.mem (applyAll fs r1.calls) (tmpName n) 0 b = r2 at h2 ⊢
-    have h3 := commit_ok cfg o r2.mem (applyAll (applyAll fs r1.calls) r2.calls) (tmpName n) n
+    have h3 := commit_ok cfg hp.verify o r2.mem (applyAll (applyAll fs r1.calls) r2.calls) (tmpName n) n
     generalize commit cfg o r2.mem (applyAll (applyAll fs r1.calls) r2.calls) (tmpName n) n = r3 at h3 ⊢
     have h12 : OpOK cfg m fs ⟨r2.mem, r1.calls ++ r2.calls, Res.ok⟩ := opOK_seq h1 h2
     have h123 : OpOK cfg m fs ⟨r3.mem, r1.calls ++ r2.calls ++ r3.calls, Res.ok⟩ :=
@@ -88,13 +82,16 @@ theorem refresh_ok {cfg : Cfg} (hp : Params cfg) (o : Order Name) (m : Mem) (fs 
     split
     · exact opOK_res _ h123
     · have hw := writeMeta_ok hp r3.mem (applyAll (applyAll (applyAll fs r1.calls) r2.calls) r3.calls)
-        n (if cfg.mem = true ∧ cfg.digest b = n then some b else none)
+        n (if cfg.mem = true ∧ (cfg.verify = false ∨ cfg.digest b = n) then some b else none)
         (fun b' hb' => by
           split at hb'
-          · rename_i hc; cases hb'; exact hc.2
+          · rename_i hc; cases hb'
+            rcases hc.2 with h | h
+            · rw [hp.verify] at h; cases h
+            · exact h
           · cases hb')
       generalize writeMeta cfg r3.mem (applyAll (applyAll (applyAll fs r1.calls) r2.calls) r3.calls)
-        n (if cfg.mem = true ∧ cfg.digest b = n then some b else none) = w at hw ⊢
+        n (if cfg.mem = true ∧ (cfg.verify = false ∨ cfg.digest b = n) then some b else none) = w at hw ⊢
       exact opOK_seq (a := ⟨r3.mem, r1.calls ++ r2.calls ++ r3.calls, Res.ok⟩) h123 (by simpa only [applyAll_append] using hw)
 
 theorem read_ok (cfg : Cfg) (m : Mem) (fs : FS Name) (n : String) : OpOK cfg m fs (read cfg m fs n) := by
@@ -104,7 +101,7 @@ theorem read_ok (cfg : Cfg) (m : Mem) (fs : FS Name) (n : String) : OpOK cfg m f
   split
   · exact opOK_neutral (by simp) (fun _ h => h)
   · split <;>
-    · refine ⟨fun g => neutral_prefix g _ hn, ?_, keeps_of_neutral _ hn fs⟩
+    · refine ⟨fun g => neutral_prefix g _ hn, ?_⟩
       intro hs; rw [← hfs]; exact (lockCache_sync cfg m fs n hs).1
 
 theorem getmeta_ok (cfg : Cfg) (m : Mem) (fs : FS Name) (n : String) : OpOK cfg m fs (getmeta cfg m fs n) := by
@@ -114,8 +111,128 @@ theorem getmeta_ok (cfg : Cfg) (m : Mem) (fs : FS Name) (n : String) : OpOK cfg 
   split
   · exact opOK_neutral (by simp) (fun _ h => h)
   · split <;>
-    · refine ⟨fun g => neutral_prefix g _ hn, ?_, keeps_of_neutral _ hn fs⟩
+    · refine ⟨fun g => neutral_prefix g _ hn, ?_⟩
       intro hs; rw [← hfs]; exact (loadCache_sync cfg m fs n hs).1
+
+theorem metareq_ok {cfg : Cfg} (hp : Params cfg) (o : Order Name) (m : Mem) (fs : FS Name) (n : String) (backend : Option Bytes) :
+    OpOK cfg m fs (metareq cfg o m fs n backend) := by
+  unfold metareq
+  simp only
+  have h1 := getmeta_ok cfg m fs n
+  generalize getmeta cfg m fs n = g at h1 ⊢
+  split
+  · exact opOK_res _ h1
+  · split
+    · have h2 := genmeta_ok hp g.mem (applyAll fs g.calls) n
+      generalize genmeta cfg g.mem (applyAll fs g.calls) n = w at h2 ⊢
+      have h12 : OpOK cfg m fs ⟨w.mem, g.calls ++ w.calls, Res.ok⟩ := opOK_seq h1 h2
+      have h3 := getmeta_ok cfg w.mem (applyAll (applyAll fs g.calls) w.calls) n
+      generalize getmeta cfg w.mem (applyAll (applyAll fs g.calls) w.calls) n = g2 at h3 ⊢
+      exact opOK_seq (a := ⟨w.mem, g.calls ++ w.calls, Res.ok⟩) h12 (by simpa only [applyAll_append] using h3)
+    · split
+      · exact opOK_res _ h1
+      · rename_i b
+        have h2 := refresh_ok hp o g.mem (applyAll fs g.calls) n b
+        generalize refresh cfg o g.mem (applyAll fs g.calls) n b = r at h2 ⊢
+        exact opOK_seq h1 h2
+
+/-! ### deletion -/
+
+theorem good_apply_unlink {cfg : Cfg} {fs : FS Name} (g : GoodFS cfg fs) (p : Path) (x : Name) :
+    GoodFS cfg (apply fs (Call.unlink p x)) := by
+  have hother : ∀ q y, (q, y) ≠ (p, x) → (apply fs (Call.unlink p x)).file? q y = fs.file? q y :=
+    fun q y h => file?_apply_of_not_written fs _ q y rfl (by simpa [Call.writes] using h)
+  constructor
+  · intro n c hc
+    by_cases h : (cacheDir n, Name.data) = (p, x)
+    · cases h; rw [file?_apply_unlink] at hc; cases hc
+    · rw [hother _ _ h] at hc; exact g.dataOK n c hc
+  · intro n t ht
+    by_cases h : (cacheDir n, Name.tmeta) = (p, x)
+    · cases h; rw [file?_apply_unlink] at ht; cases ht
+    · rw [hother _ _ h] at ht; exact g.metaOK n t ht
+
+/-- calls that only remove things keep the invariant -/
+theorem removal_prefix {cfg : Cfg} (cs : List (Call Name)) (hr : ∀ c ∈ cs, (∃ p x, c = Call.unlink p x) ∨ (∃ p, c = Call.rmdir p))
+    {fs : FS Name} (g : GoodFS cfg fs) : ∀ k, GoodFS cfg (applyPrefix k cs fs) := by
+  induction cs generalizing fs with
+  | nil => intro k; simpa [applyPrefix] using g
+  | cons c cs ih =>
+    intro k
+    cases k with
+    | zero => simpa [applyPrefix] using g
+    | succ k =>
+      have : applyPrefix (k + 1) (c :: cs) fs = applyPrefix k cs (apply fs c) := by simp [applyPrefix]
+      rw [this]
+      apply ih (fun c' h => hr c' (List.mem_cons_of_mem _ h))
+      rcases hr c (List.mem_cons_self ..) with ⟨p, x, rfl⟩ | ⟨p, rfl⟩
+      · exact good_apply_unlink g p x
+      · exact goodFS_congr (fun n => ⟨file?_apply_of_not_written fs _ _ _ rfl (by simp [Call.writes]),
+          file?_apply_of_not_written fs _ _ _ rfl (by simp [Call.writes])⟩) g
+
+theorem removeAllPlan_removal (fs : FS Name) (o : Order Name) (p : Path) :
+    ∀ c ∈ removeAllPlan fs o p, (∃ q x, c = Call.unlink q x ∧ q = p) ∨ (∃ q, c = Call.rmdir q) := by
+  intro c hc
+  unfold removeAllPlan at hc
+  split at hc
+  · simp at hc
+  · simp only [List.mem_append, List.mem_map, List.mem_singleton] at hc
+    rcases hc with ⟨x, _, rfl⟩ | rfl
+    · exact Or.inl ⟨p, x, rfl, rfl⟩
+    · exact Or.inr ⟨p, rfl⟩
+
+theorem removeAll_cache_other (fs : FS Name) (o : Order Name) (n n' : String) (hn : n' ≠ n) (fs' : FS Name) :
+    (applyAll fs' (removeAllPlan fs o (cacheDir n))).file? (cacheDir n') .data = fs'.file? (cacheDir n') .data :=
+  file?_applyAll_of_not_written _ fs' _ _ (fun c hc => by
+    rcases removeAllPlan_removal fs o (cacheDir n) c hc with ⟨q, x, rfl, rfl⟩ | ⟨q, rfl⟩
+    · exact ⟨rfl, by simp only [Call.writes, List.mem_singleton, Prod.mk.injEq, not_and]; intro e; exact absurd (cacheDir_inj e) hn⟩
+    · exact ⟨rfl, by simp [Call.writes]⟩)
+
+theorem isCached_adel (l : List (String × Bool)) (n n' : String) :
+    (aget (adel l n) n').isSome = true → n' ≠ n ∧ (aget l n').isSome = true := by
+  intro h
+  by_cases e : n = n'
+  · subst e; rw [aget_adel_self] at h; cases h
+  · rw [aget_adel_ne _ _ _ e] at h; exact ⟨fun e' => e e'.symm, h⟩
+
+theorem delete_ok (cfg : Cfg) (o : Order Name) (m : Mem) (fs : FS Name) (n : String) : OpOK cfg m fs (delete cfg o m fs n) := by
+  unfold delete
+  obtain ⟨hn, hfs⟩ := loadCache_calls cfg m fs n
+  simp only
+  split
+  · exact opOK_neutral (by simp) (fun _ h => h)
+  · -- the entry leaves the map; whatever is removed belongs to `n`
+    have hsync0 : Sync m fs → Sync { (loadCache cfg m fs n).mem with cached := adel (loadCache cfg m fs n).mem.cached n } (loadCache cfg m fs n).fs := by
+      intro hs n' h
+      obtain ⟨_, h2⟩ := isCached_adel _ _ _ (by simpa [isCached] using h)
+      exact (loadCache_sync cfg m fs n hs).1 n' h2
+    have hrm : (GoodFS cfg fs → ∀ k, GoodFS cfg (applyPrefix k ((loadCache cfg m fs n).calls ++ removeAllPlan (loadCache cfg m fs n).fs o (cacheDir n)) fs)) ∧
+        (Sync m fs → Sync { (loadCache cfg m fs n).mem with cached := adel (loadCache cfg m fs n).mem.cached n }
+          (applyAll fs ((loadCache cfg m fs n).calls ++ removeAllPlan (loadCache cfg m fs n).fs o (cacheDir n)))) := by
+      constructor
+      · intro g
+        apply prefix_append _ _ _ _ (neutral_prefix g _ hn)
+        rw [← hfs]
+        exact removal_prefix _ (fun c hc => by
+          rcases removeAllPlan_removal _ o _ c hc with ⟨q, x, rfl, _⟩ | ⟨q, rfl⟩
+          · exact Or.inl ⟨_, _, rfl⟩
+          · exact Or.inr ⟨_, rfl⟩) (by rw [hfs]; exact neutral_all g _ hn)
+      · intro hs n' h
+        obtain ⟨h1, h2⟩ := isCached_adel _ _ _ (by simpa [isCached] using h)
+        simp only [applyAll_append]
+        rw [← hfs, removeAll_cache_other _ o n n' h1]
+        exact (loadCache_sync cfg m fs n hs).1 n' h2
+    have hkeep : (GoodFS cfg fs → ∀ k, GoodFS cfg (applyPrefix k (loadCache cfg m fs n).calls fs)) ∧
+        (Sync m fs → Sync { (loadCache cfg m fs n).mem with cached := adel (loadCache cfg m fs n).mem.cached n }
+          (applyAll fs (loadCache cfg m fs n).calls)) :=
+      ⟨fun g => neutral_prefix g _ hn, fun hs => by rw [← hfs]; exact hsync0 hs⟩
+    split
+    · split
+      · exact ⟨hkeep.1, hkeep.2⟩
+      · split
+        · exact ⟨hrm.1, hrm.2⟩
+        · exact ⟨hkeep.1, hkeep.2⟩
+    · exact ⟨hrm.1, hrm.2⟩
 
 /-! ### the restart -/
 
@@ -161,14 +278,15 @@ theorem exec_ok {cfg : Cfg} (hp : Params cfg) (o : Order Name) (m : Mem) (fs : F
   cases op with
   | ustart u => exact ustart_ok cfg m fs u
   | uwrite u off b => exact uwrite_ok cfg m fs u off b
-  | commit u n => exact commit_ok cfg o m fs u n
+  | commit u n => exact commit_ok cfg hp.verify o m fs u n
   | persist n => exact persist_ok cfg m fs n
   | genmeta n => exact genmeta_ok hp m fs n
   | refresh n b => exact refresh_ok hp o m fs n b
   | read n => exact read_ok cfg m fs n
   | getmeta n => exact getmeta_ok cfg m fs n
+  | metareq n backend => exact metareq_ok hp o m fs n backend
+  | delete n => exact delete_ok cfg o m fs n
   | restart =>
-    exact ⟨fun g => neutral_prefix g _ (restartPlan_neutral o fs), fun _ n h => by simp [exec, isCached, aget] at h,
-      keeps_of_neutral _ (restartPlan_neutral o fs) fs⟩
+    exact ⟨fun g => neutral_prefix g _ (restartPlan_neutral o fs), fun _ n h => by simp [exec, isCached, aget] at h⟩
 
 end KrakenModel.OriginCrash
